@@ -26,7 +26,7 @@ def run(ctx):
                 "list, map, enum value), structs / unions / exceptions with fields of every requiredness, defaults and an annotation, "
                 "services with extends / oneway / arguments / throws, scopes with prefixes and variables), identifier pools with and "
                 "without names that start with keywords; all programs after 1 (thorough 2) steps exhaustively plus the successors along "
-                "random walks of 14 (thorough 22) steps, plus, one family of declarations at a time (enums with their values; scopes with prefixes and operations; typedefs over enums; uses of a two-level typedef chain over an enum as field, default Enum.VALUE, argument, result, operation), every program reachable in 4 / 2 / 2 / 1 (thorough 5 / 3 / 3 / 1) steps; each rendered in 6 lexical styles (the first 200 in all, the rest in 2): "
+                "random walks of 14 (thorough 22) steps, plus, one family of declarations at a time (enums with their values; scopes with prefixes and operations; typedefs over enums; uses of a two-level typedef chain over an enum as field, default Enum.VALUE, argument, result, operation; a constant or field default of every type of the pool - base types incl. i8, containers, structs, unions, exceptions, enums, typedefs, types of the included file - with every literal of IDL!Lits), every program reachable in 4 / 2 / 2 / 1 / 1 (thorough 5 / 3 / 3 / 1 / 1) steps; each rendered in 6 lexical styles (the first 200 in all, the rest in 2): "
                 "',' / ';' / no separators, '//' '#' inline and multi-line '/* */' comments, both quote styles, blank lines, and "
                 "Thrift-style declarations on one line; parsed by parser.ParseFrugal and compared with the abstract program (enum "
                 "numbering per Thrift, union members optional). non-trivial = program with >= 3 declarations; distinct = distinct programs")
@@ -49,7 +49,7 @@ def run(ctx):
             progs += progs_of(r)
         ctx.seed = old
     # one family of declarations at a time, exhaustively and several steps deep (every state is a program)
-    for focus, depth in (("enums", 5 if thorough else 4), ("scopes", 3 if thorough else 2), ("typedefs", 3 if thorough else 2), ("enumrefs", 1), ("annotations", 4)):
+    for focus, depth in (("enums", 5 if thorough else 4), ("scopes", 3 if thorough else 2), ("typedefs", 3 if thorough else 2), ("enumrefs", 1), ("annotations", 4), ("consts", 1)):
         r = ctx.tlc_must_hold("IDL", "i.cfg", cfg_text=idl_cfg(2, "FALSE", depth, constraint=True, focus=focus), workers=NCPU, timeout=2400, heap="10g")
         fp = progs_of(r)
         ctx.extra["focus_" + focus] = len(fp)
